@@ -7,6 +7,7 @@ package main
 
 import (
 	"fmt"
+	"strings"
 
 	"verifharness/cmd/c10/ntsx"
 	"verifharness/lib"
@@ -111,6 +112,20 @@ func gen(c *lib.Ctx) {
 			b := ntsx.ForeignPacket(hdr, [][]byte{ntsx.RawField(0x104, uid), cookieF}, e.s.C2S, r.Bytes(n), nil)
 			c.Count("nonce-length")
 			e.feed(b, uid, fmt.Sprintf("request sealed with a %d-byte nonce", n))
+		}
+		// well-formed cookies whose nonce TLV has another length than the AEAD expects (F16)
+		if f := strings.Fields(ntsx.Do(c, "ec.dec "+lib.Hex(e.ck))); len(f) == 4 && f[0] == "ok" {
+			for _, nl := range []int{0, 1, 8, 15, 17, 24, 32} {
+				m, ok := ntsx.OkHex(ntsx.Do(c, fmt.Sprintf("ec.enc %s %s %s", f[1], lib.Hex(r.Bytes(nl)), f[3])))
+				if !ok {
+					continue
+				}
+				c.Count("cookie-nonce-length")
+				op := fmt.Sprintf("ck.decrypt %s %s", lib.Hex(m), lib.Hex(e.key))
+				ntsx.NoCrash(c, op, ntsx.Do(c, op), fmt.Sprintf("Decrypt of a well-formed cookie with a %d-byte nonce", nl))
+				b := ntsx.ForeignPacket(hdr, [][]byte{ntsx.RawField(0x104, uid), ntsx.RawField(0x204, m)}, e.s.C2S, r.Bytes(16), nil)
+				e.feed(b, uid, fmt.Sprintf("request whose cookie has a %d-byte nonce", nl))
+			}
 		}
 		// cookies: every TLV mutation inside an otherwise valid request
 		for _, m := range ntsx.TLVMutants(e.ck, r) {
